@@ -591,11 +591,21 @@ func (s *Serializer) Deserialize(src []byte, dst *ParsedJson) (*ParsedJson, erro
 		tagDst := uint64(t) << 56
 		if nSkips > 0 && tag != TagNop {
 			// We owe skips. Add with jumps
+			if off+nSkips >= len(dst.Tape) {
+				return dst, errors.New("tags extended beyond tape")
+			}
 			for i := 0; i < nSkips; i++ {
 				dst.Tape[off] = (uint64(TagNop) << JSONTAGOFFSET) | uint64(nSkips-i)
 				off++
 			}
 			nSkips = 0
+		}
+		switch tag {
+		case TagString, TagFloat, TagInteger, TagUint, tagFloatWithFlag:
+			// These occupy two tape entries.
+			if off+1 >= len(dst.Tape) {
+				return dst, errors.New("tags extended beyond tape")
+			}
 		}
 		switch tag {
 		case TagNop:
@@ -642,6 +652,9 @@ func (s *Serializer) Deserialize(src []byte, dst *ParsedJson) (*ParsedJson, erro
 			if val > uint64(len(dst.Tape)) {
 				return dst, fmt.Errorf("%v extends beyond tape (%d). offset:%d", tag, len(dst.Tape), val)
 			}
+			if val < uint64(off)+2 {
+				return dst, fmt.Errorf("%v ends before it starts. offset:%d", tag, val)
+			}
 
 			dst.Tape[off] = tagDst | val
 			// Write closing...
@@ -675,6 +688,9 @@ func (s *Serializer) Deserialize(src []byte, dst *ParsedJson) (*ParsedJson, erro
 	}
 	if nSkips > 0 {
 		// We owe skips. Add with jumps
+		if off+nSkips > len(dst.Tape) {
+			return dst, errors.New("tags extended beyond tape")
+		}
 		for i := 0; i < nSkips; i++ {
 			dst.Tape[off] = (uint64(TagNop) << JSONTAGOFFSET) | uint64(nSkips-i)
 			off++
